@@ -230,8 +230,8 @@ static Verdict Check(vh::Ctx& c, const Manifold& r, const Vox& model) {
           c.count("lattice_points_classified");
           if (!cl.integral) { skipped++; c.count("skipped_nonintegral_winding"); continue; }
           if (cl.w > 1 || cl.w < 0) c.count("lattice_winding_outside_0_1");
-          int got = cl.w > 0 ? 1 : 0;
-          if (got != want) {
+          // the result is a solid: winding exactly 1 inside, exactly 0 outside
+          if (cl.w != want) {
             if (!mism) {
               char buf[200];
               snprintf(buf, sizeof buf, "point (%.2Lf,%.2Lf,%.2Lf): model %s, result winding %d", p.x, p.y, p.z, want ? "inside" : "outside", cl.w);
@@ -486,12 +486,12 @@ static std::string MeshClass(const Manifold& m, const Vox& x) {
   if (x.count() == 0) return "flat-sheet";
   LBox bx;
   if (x.IsBox(bx) && s.v.size() == 8 && s.t.size() == 12) return "box";
-  std::string f;
-  auto add = [&](const char* w) { f += (f.empty() ? "" : ","); f += w; };
-  if (NonManifoldContact(x)) add("nonmanifold-contact");
+  // one dominant feature, most degenerate first (keeps the key space small and stable)
+  if ((double)vo::SoupArea(s) > (double)BoundaryFaces(x) + 1e-9) return "solid[double-wall]";
+  if (NonManifoldContact(x)) return "solid[nonmanifold-contact]";
   // redundant vertices: all incident non-degenerate triangles lie in <= 2 plane directions
+  // (a vertex inside a face or inside a straight edge), or vertices off the lattice
   std::vector<int> dirs(s.v.size(), 0);
-  bool off = false;
   for (auto& t : s.t) {
     V3 n = vo::cross(s.v[t[1]] - s.v[t[0]], s.v[t[2]] - s.v[t[0]]);
     long double ax = fabsl(n.x), ay = fabsl(n.y), az = fabsl(n.z);
@@ -499,15 +499,11 @@ static std::string MeshClass(const Manifold& m, const Vox& x) {
     int d = ax >= ay && ax >= az ? (n.x > 0 ? 1 : 2) : ay >= az ? (n.y > 0 ? 4 : 8) : (n.z > 0 ? 16 : 32);
     for (int k = 0; k < 3; k++) dirs[t[k]] |= d;
   }
-  bool redundant = false;
   for (size_t i = 0; i < s.v.size(); i++) {
-    if (__builtin_popcount(dirs[i]) <= 2 && dirs[i]) redundant = true;
-    if (s.v[i].x != floorl(s.v[i].x) || s.v[i].y != floorl(s.v[i].y) || s.v[i].z != floorl(s.v[i].z)) off = true;
+    if (__builtin_popcount(dirs[i]) <= 2 && dirs[i]) return "solid[redundant-verts]";
+    if (s.v[i].x != floorl(s.v[i].x) || s.v[i].y != floorl(s.v[i].y) || s.v[i].z != floorl(s.v[i].z)) return "solid[redundant-verts]";
   }
-  if (redundant) add("redundant-verts");
-  if (off) add("off-lattice-verts");
-  if ((double)vo::SoupArea(s) > (double)BoundaryFaces(x) + 1e-9) add("double-wall");
-  return f.empty() ? "solid" : "solid[" + f + "]";
+  return "solid";
 }
 static std::string SetRel(const Vox& a, const Vox& b) {
   long na = a.count(), nb = b.count(), ni = 0;
@@ -560,7 +556,7 @@ static Shrunk Shrink(vh::Ctx& c, const EP& start, int N) {
     return s;
   }
   bool progress = true;
-  while (progress && s.evals < 600) {
+  while (progress && s.evals < 400) {
     progress = false;
     // (a) replace a node by one of its children / by the box it denotes
     {
@@ -690,10 +686,22 @@ static Shrunk Shrink(vh::Ctx& c, const EP& start, int N) {
   return s;
 }
 
+// Shrinking is bounded per worker process: on a tree where (nearly) every
+// Boolean is wrong the first few witnesses are shrunk and the rest are
+// reported as they are, so that the run stays bounded.
+static long g_shrinkEvals = 0;
 static void Report(vh::Ctx& c, const std::string& family, const EP& failingExpr, int N, const Verdict& v0,
                    const std::string& program) {
   c.count("lattice_violations_before_shrinking");
+  if (g_shrinkEvals > 1500) {
+    c.count("lattice_violations_not_shrunk");
+    c.violation(std::string("lattice:") + (failingExpr->op >= 0 ? kOpName[failingExpr->op] : "Leaf") + ":wrong-result:unshrunk(shrink-budget-of-this-worker-spent)",
+                vh::J().s("family", family).s("failing_step", Str(failingExpr)).s("clause", v0.kind).s("info", v0.info)
+                    .d("result_volume", v0.soupVolume).i("expected_voxels", v0.expectVoxels).i("N", N).s("program", program).str());
+    return;
+  }
   Shrunk s = Shrink(c, failingExpr, N);
+  g_shrinkEvals += s.evals;
   const EP& e = s.expr;
   const Verdict& v = s.reproducedAsTree ? s.v : v0;
   std::string opn = e->op >= 0 ? kOpName[e->op] : "Leaf";
@@ -1199,7 +1207,7 @@ struct Outcome {
 };
 static Outcome CheckResult(vh::Ctx& c, const std::string& what, const Manifold& R, const vo::Soup& rs,
                            std::vector<Sample>& shared, const std::vector<const vo::Soup*>& ops, long double tau,
-                           const Formula& f, int ownTris, const std::function<std::string()>& witness) {
+                           const Formula& f, int ownTris, const std::function<std::string()>& witness, bool farOnly = false) {
   Outcome o;
   std::vector<Sample> own;
   SurfaceSamples(c.rng, rs, tau, ownTris, 'R', own);
@@ -1214,7 +1222,9 @@ static Outcome CheckResult(vh::Ctx& c, const std::string& what, const Manifold& 
     o.decided++;
     c.count("points_decided");
     if (w > 1 || w < 0) c.count("result_winding_outside_0_1");
-    if ((got != 0) != want) {
+    (void)got;
+    // the result is a solid: winding exactly 1 where the formula says inside, exactly 0 elsewhere
+    if (w != (want ? 1 : 0)) {
       if (o.ok) {
         long double dmin = 1e300L;
         for (auto s : ops)
@@ -1222,7 +1232,14 @@ static Outcome CheckResult(vh::Ctx& c, const std::string& what, const Manifold& 
         long double scale = rs.scale;
         for (auto s : ops) scale = std::max(scale, s->scale);
         std::string sev = dmin > 1e-6L * scale ? "far" : "near-tau";
-        std::string key = "general:" + what + ":misclassified:" + (want ? "want-in-got-out" : "want-out-got-in") + ":" + sev;
+        if (farOnly && sev != "far") {
+          // operands coincident by ancestry are outside the quantifier's "general position";
+          // only gross disagreements (farther than 1e-6 x scale from every input surface) are
+          // reported there, the ones within a few tolerances of the shared surfaces are counted
+          c.count("ancestor_disagreements_within_1e-6_scale_not_reported");
+          return;
+        }
+        std::string key = "general:" + what + ":misclassified:" + (want ? (w == 0 ? "want-in-got-out" : "want-in-got-winding-not-1") : (w == 1 ? "want-out-got-in" : "want-out-got-winding-not-0")) + ":" + sev;
         std::string ins = "[";
         for (size_t i = 0; i < q.in.size(); i++) ins += (i ? "," : "") + std::to_string(q.in[i]);
         ins += "]";
@@ -1485,18 +1502,29 @@ static void Case(vh::Ctx& c) {
     cur.m = base.m;
     cur.how = std::string("(") + A.how + ") " + kOpChar[which] + " (" + B.how + ")";
     cur.kind = std::string("Result") + kOpName[which];
-    bool curOk = base.ok && !base.s.empty();
+    bool curOk = base.ok;
+    if (base.s.empty()) { c.count("chain_not_started_on_empty_result"); depthMax = 0; }
     for (int d = 0; d < depthMax; d++) {
       if (!curOk) { c.count("precondition_lost"); break; }
       Finish(cur);
-      Opnd C = MakeOperand(r);
-      PlaceOver(r, cur.m, C);
-      Finish(C);
+      // the other operand: a fresh generic one, or (coincident by ancestry) one of the
+      // original operands again: its surface is partly shared with `cur`; the band
+      // removes the shared surface, everything else must still follow the formula.
+      const bool ancestor = r.chance(c.dparam("pAncestor", 0.3));
+      Opnd C;
+      if (ancestor) {
+        C = r.chance(0.5) ? A : B;
+      } else {
+        C = MakeOperand(r);
+        PlaceOver(r, cur.m, C);
+        Finish(C);
+      }
       int op = r.range(0, 2);
       bool curFirst = r.chance(0.6);
       Opnd& X = curFirst ? cur : C;
       Opnd& Y = curFirst ? C : cur;
-      std::string what = std::string("chained:") + kOpName[op];
+      std::string what = std::string(ancestor ? "chained-with-ancestor:" : "chained:") + kOpName[op];
+      if (ancestor) c.count("general_chained_with_ancestor");
       c.site("general:" + what);
       Manifold R = X.m.Boolean(Y.m, (OpType)op);
       std::vector<Opnd*> XY = {&X, &Y};
@@ -1515,7 +1543,7 @@ static void Case(vh::Ctx& c) {
       Formula f = op == 0 ? Formula([](const std::vector<int>& in) { return in[0] || in[1]; })
                  : op == 1 ? Formula([](const std::vector<int>& in) { return in[0] && !in[1]; })
                            : Formula([](const std::vector<int>& in) { return in[0] && in[1]; });
-      Outcome o = CheckResult(c, what, x.m, x.s, ss, cops, tauC, f, nOwn, cw);
+      Outcome o = CheckResult(c, what, x.m, x.s, ss, cops, tauC, f, nOwn, cw, ancestor);
       c.count("general_results_checked");
       c.count("general_chained_results_checked");
       if (o.decided > 0 && o.ok) c.sig(std::string("chain:") + cur.kind + ":" + C.kind + ":" + kOpName[op]);
@@ -1524,7 +1552,8 @@ static void Case(vh::Ctx& c) {
       nxt.m = R;
       nxt.how = "(" + X.how + ") " + kOpChar[op] + " (" + Y.how + ")";
       nxt.kind = std::string("Result") + kOpName[op];
-      curOk = o.ok && !x.s.empty();
+      curOk = o.ok;
+      if (x.s.empty()) { c.count("chain_ended_on_empty_result"); break; }
       cur = std::move(nxt);
       c.heartbeat();
     }
